@@ -60,6 +60,8 @@ def binop(eng, op, a, b, s):
             # x ** n : uninterpreted real power with the algebraic facts the contracts need
             return [(sv_float(POW(eng.num_real(a), eng.num_real(b))), s)]
         raise Unsupported(f"numeric op {type(op).__name__}")
+    if eng.spec and isinstance(op, ast.Add) and "str" in (a.ty, b.ty) and None in (a.ty, b.ty):
+        a, b = eng.with_ty(s, a, "str"), eng.with_ty(s, b, "str")
     if a.ty == "str" and b.ty == "str" and isinstance(op, ast.Add):
         return [(sv_str(smt.simp(z3.Concat(get_s(a.t), get_s(b.t)))), s)]
     ka, kb = kind_of(eng, a), kind_of(eng, b)
@@ -277,6 +279,11 @@ def getattr_(eng, v, name, s):
     # split on the classes that can hold this attribute
     classes = eng.reg.classes_with_field(name)
     if not classes:
+        meth = [c for c, k in eng.reg.classes.items() if k.pycls is not None and callable(getattr(k.pycls, name, None))]
+        if meth:
+            t = eng.static_ty(s, v, ["obj:" + c for c in meth])
+            if t is not None:
+                return getattr_(eng, eng.with_ty(s, v, t), name, s)
         raise Unsupported(f"attribute {name} on value of unknown type")
     if eng.spec:
         # total in specifications: field read
@@ -418,7 +425,14 @@ def setattr_(eng, obj, name, v, s):
 # ---------------------------------------------------------------------------------------------------
 # subscripts
 # ---------------------------------------------------------------------------------------------------
-def norm_index(n, i):
+def norm_index(n, i, spec=False):
+    """Python's negative indexing; in specifications indices are taken as written unless they are
+    negative literals (keeps quantifier triggers free of `if`)"""
+    si = smt.simp(i)
+    if z3.is_int_value(si):
+        return si if si.as_long() >= 0 else smt.simp(n + si)
+    if spec:
+        return i
     return z3.If(i < 0, n + i, i)
 
 
@@ -435,14 +449,15 @@ def subscript(eng, v, k, s):
                 return ext(eng, v, k, s)
         raise Unsupported(f"subscript of constant {type(v.obj).__name__}")
     if isinstance(v, SeqView):
+        from .builtins_model import elem_at
         k = eng.as_val(s, k)
-        i = norm_index(v.n, get_i(k.t))
+        i = norm_index(v.n, get_i(k.t), eng.spec)
         if eng.spec:
-            return [(SV(z3.Select(v.arr, i), v.elem_ty), s)]
+            return [(elem_at(eng, s, v, i), s)]
         ok, bad = eng.branch(s, z3.And(0 <= i, i < v.n))
         if bad is not None:
             eng.raise_exc(bad, IndexError)
-        return [(SV(z3.Select(v.arr, i), v.elem_ty), ok)] if ok is not None else []
+        return [(elem_at(eng, ok, v, i), ok)] if ok is not None else []
     if not isinstance(v, SV):
         raise Unsupported(f"subscript of {v!r}")
     kd = kind_of(eng, v)
@@ -473,7 +488,7 @@ def subscript(eng, v, k, s):
             eng.raise_exc(s, TypeError)
             return []
         n = h.llen(v.ref)
-        i = norm_index(n, get_i(k.t))
+        i = norm_index(n, get_i(k.t), eng.spec)
         ety = eng.reg.elem_ty_hint(s, v)
         if eng.spec:
             return [(SV(h.lget(v.ref, i), ety), s)]
@@ -496,7 +511,7 @@ def subscript(eng, v, k, s):
     if kd == "str":
         k = eng.as_val(s, k)
         n = z3.Length(get_s(v.t))
-        i = norm_index(n, get_i(k.t))
+        i = norm_index(n, get_i(k.t), eng.spec)
         if eng.spec:
             return [(sv_str(z3.SubString(get_s(v.t), i, 1)), s)]
         ok, bad = eng.branch(s, z3.And(0 <= i, i < n))
